@@ -66,6 +66,11 @@ def trees():
                          "LICENSES/LicenseRef-a.b": "text ab, no extension\n", "LICENSES/LicenseRef-a.b.txt": "text ab\n"}
     t["case-variants"] = {"a.py": H, "b/c.py": H.replace("MIT", "mit"), "b/d.py": H.replace("MIT", "MIT OR 0bsd"), "e.py": H.replace("MIT", "0BSD OR MIT"),
                           "LICENSES/MIT.txt": "mit\n", "LICENSES/0BSD.txt": "0bsd\n"}
+    # the same dual licence stated twice with the operands swapped: equal as expressions, different as text
+    t["equal-expressions"] = {"a.py": H.replace("MIT", "MIT OR 0BSD") + "# SPDX-License-Identifier: 0BSD OR MIT\n", "b.py": "b = 1\n", "c/d.py": H.replace("MIT", "0BSD OR MIT"),
+                              "REUSE.toml": 'version = 1\n\n[[annotations]]\npath = ["b.py", "c/**"]\nprecedence = "aggregate"\nSPDX-FileCopyrightText = "2020 Jane"\n'
+                                            'SPDX-License-Identifier = ["MIT OR 0BSD", "0BSD OR MIT", "0BSD  OR  MIT"]\n',
+                              "LICENSES/MIT.txt": "mit\n", "LICENSES/0BSD.txt": "0bsd\n"}
     t["git"] = {"a.py": H, "ignored.log": "x\n", "d/b.py": H, "d/c.log": "x\n", ".gitignore": "*.log\nbuild/\ndist/\ncache/\n", "LICENSES/MIT.txt": "mit\n",
                 "build/out.py": "no info\n", "dist/pkg.py": "no info\n", "cache/c.py": "no info\n"}
     t["git-submodule"] = {"a.py": H, "src/b.py": H, "LICENSES/MIT.txt": "mit\n"}
